@@ -61,6 +61,26 @@ def run_property(pid, tier, repo, evidence_dir, replay_keys=None, quiet=False):
 
     kf = KnownFindings(os.path.join(HERE, "known_findings.json"))
     failed = report.failed()
+    selftest_error = None
+    if tier == "thorough" and replay_keys is None and not [o for o in failed if kf.match(pid, o) is None] \
+            and os.environ.get("PMDCHECK_NO_SELFTEST") != "1":
+        # armedness self-test restricted to this property: evidence about the checker, never a repo verdict
+        from .selftest import selftest
+        os.environ["PMDCHECK_NO_SELFTEST"] = "1"
+        try:
+            st = selftest(repo, props=[pid], verbose=False)
+        finally:
+            os.environ.pop("PMDCHECK_NO_SELFTEST", None)
+        report.extra["armedness_selftest"] = {
+            "mutants_applied": st["mutants"] - len(st["skipped"]), "expectations_met": st["checks_ok"],
+            "missed": [m[0] for m in st["missed"]], "false_alarms": [m[0] for m in st["false_alarms"]],
+            "analysis_errors": [m[0] for m in st["analysis_errors"]], "skipped": [m[0] for m in st["skipped"]],
+            "wall_s": st["wall_s"],
+            "note": "fire mutants listing this property must make the check exit 1; neutral mutants must leave it at exit 0"}
+        if st["missed"] or st["false_alarms"] or st["analysis_errors"]:
+            selftest_error = "armedness self-test: %d missed, %d false alarms, %d analysis errors (%s)" % (
+                len(st["missed"]), len(st["false_alarms"]), len(st["analysis_errors"]),
+                ", ".join(sorted(set(m[0] for m in st["missed"] + st["false_alarms"] + st["analysis_errors"]))))
     if replay_keys is not None:
         failed = [o for o in failed if o.key in replay_keys]
     known, violations = [], []
@@ -81,7 +101,12 @@ def run_property(pid, tier, repo, evidence_dir, replay_keys=None, quiet=False):
             continue
         seen.add(f.get("construct"))
         print("KNOWN-FINDING: property=%s %s [%s %s] %s" % (pid, f.get("what", o.msg), o.rule, o.construct, o.site))
+    if selftest_error:
+        report.extra["analysis_error"] = selftest_error
     write_evidence(report, evidence_path, violations, [f for _, f in known], seed)
+    if selftest_error and not violations:
+        print("ANALYSIS-ERROR property=%s %s" % (pid, selftest_error))
+        return 2
     if violations:
         for o in violations:
             print("FAILED %s %s at %s: %s" % (o.rule, o.construct, o.site, o.msg))
